@@ -28,7 +28,8 @@ def refused(cls):
             'len': {'ok': False, 'n': 0, 'exc': '-'},
             'it1': it, 'it2': it, 'itk': it,
             'keys': {'ok': False, 'ks': [], 'exc': '-'},
-            'gi': [], 'gs': [], 'ginsame': True}
+            'gi': [], 'gs': [], 'ginsame': True,
+            'len2': {'ok': False, 'n': 0, 'exc': '-'}}
 
 
 def flag(fn):
@@ -106,7 +107,13 @@ def observe_ds(ds, take=None):
         gs.append({'k': k, 'r': r, 'le': isinstance(e, LookupError)})
     itk = iterate(lambda: ds.items(), take)
     it2 = iterate(lambda: ds, take)
-    return {'build': 'ok', 'idx': idx, 'ord': ord_, 'len': len_, 'it1': it1,
+    try:                     # len() once more, after everything else
+        len2 = {'ok': True, 'n': int(len(ds)), 'exc': 'none'}
+    except ObserveTimeout:
+        raise
+    except BaseException as e:
+        len2 = {'ok': False, 'n': 0, 'exc': _exc(e)}
+    return {'build': 'ok', 'len2': len2, 'idx': idx, 'ord': ord_, 'len': len_, 'it1': it1,
             'it2': it2, 'itk': itk, 'keys': keys, 'gi': gi, 'gs': gs,
             'ginsame': ginsame}
 
